@@ -26,6 +26,18 @@ CHECKS = {
          'DESIGN.md section 3 E-THR'),
 }
 
+CHECKS['C10'] = ('E-SOLVE', 'engines/e_solve.py',
+    'deterministic simulation: real Solver.solve driven by a scripted environment (fake integrator answering adaptive steps, fake clock with jumps, callbacks), trace predicates over the recorded step/dump history',
+    'seeded search over (dt, tf, pfreq, requested output times incl. clusters/step-time coincidences/1-ulp neighbours, n_damp, max_steps, adaptive answer sequences incl. None and order-of-magnitude jumps, callbacks, command handler, progress-bar clock jumps); predicates: reaches tf, time strictly increases, step <= nominal, dumps at start/end/pfreq/requested times never stepped over, recorded dt nominal, callbacks once per step. Sampling, not proof.',
+    'integrator, particle arrays, dump_output and the clock are fakes; the writers themselves are C11\'s subject; tolerances are 4x the solver\'s own epsilon',
+    'DESIGN.md section 3 E-SOLVE')
+
+CHECKS['C06'] = ('E-PA', 'engines/e_pa.py',
+    'deterministic simulation (history dimension only): seeded histories of public ParticleArray operations on the compiled class, checked operation by operation against a record-list reference model',
+    'seeded search over histories (<= 40 operations, 1-3 arrays, typed/strided properties, constants, mixed tags, empty arrays); after every operation: lengths = n x stride, recorded strides/types/defaults, multiset of whole records equal to the model, constants, alignment and num_real_particles. No schedule or fault exists for this property; only the history is searched. Sampling, not proof.',
+    'the model and the value generators in engines/e_pa.py; only valid arguments are generated; physical order is checked only through the alignment invariant',
+    'DESIGN.md section 3 E-PA')
+
 PENDING = {}
 
 
